@@ -10,6 +10,7 @@ require (
 	github.com/arr-ai/arrai v0.0.0
 	github.com/sirupsen/logrus v1.9.4
 	github.com/spf13/afero v1.11.0
+	gopkg.in/yaml.v3 v3.0.1
 	pgregory.net/rapid v1.3.0
 )
 
@@ -38,5 +39,4 @@ require (
 	golang.org/x/sys v0.41.0 // indirect
 	golang.org/x/text v0.34.0 // indirect
 	google.golang.org/protobuf v1.34.2 // indirect
-	gopkg.in/yaml.v3 v3.0.1 // indirect
 )
